@@ -196,6 +196,7 @@ def generate(run_seed, tier):
         mcfg['kind'] = 'real'
         cfg = {'sampler': sampler, 'model': mcfg, 'fit': fit,
                'obs': S.gen_obs(c, mcfg)}
+    S.default_prior_share(c, fit)
     cfg['faulty'] = c.random() < 0.6
     cfg['wide'] = wide
     o = st('ops')
@@ -207,6 +208,21 @@ def generate(run_seed, tier):
     if c.random() < 0.08:
         cfg['exact_fit'] = [c.uniform(0.2, 0.8) for _ in fit]
         ops.insert(o.randint(0, len(ops)), ['like_u', list(cfg['exact_fit'])])
+    elif o.random() < 0.35 and len(ops) >= 4:
+        # the same long-lived optimizer is re-configured and fitted again
+        r = st('refit')
+        cur = fit
+        for pos in sorted(r.sample(range(1, len(ops)), r.choice([1, 1, 2]))):
+            cur = S.mutate_fit(r, cur, fit)
+            nd = len(cur)
+            ops[pos] = ['refit', cur]
+            for j in range(pos + 1, len(ops)):
+                if ops[j][0] == 'refit':
+                    break
+                if ops[j][0] in ('prior', 'like_u'):
+                    u = ops[j][1]
+                    ops[j][1] = (u + [r.uniform(0.001, 0.999)
+                                      for _ in range(nd)])[:nd]
     return {'config': cfg, 'ops': ops}
 
 
@@ -285,6 +301,17 @@ def execute(case, keep_text=False):
     order = S.fit_order(model0, obs0, fit)
     specs = [fit_by_name[n]['prior'] for n in order]
     ndim = len(order)
+    fitted = set(order)
+    written = {}      # name -> last linear value any session wrote
+
+    def enter_segment(newfit):
+        nonlocal fit, fit_by_name, order, specs, ndim, fitted
+        fit = newfit
+        fit_by_name = {f['name']: f for f in fit}
+        order = S.fit_order(model0, obs0, fit)
+        specs = [fit_by_name[n]['prior'] for n in order]
+        ndim = len(order)
+        fitted = set(order)
     if cfg.get('exact_fit'):
         th = S.sample_theta(fit_by_name, order, cfg['exact_fit'])
         S.ref_set(model0, obs0, fit_by_name, order, th)
@@ -314,14 +341,11 @@ def execute(case, keep_text=False):
         opt = klass(polychord_path=chain, observed=obs, model=model)
     S.configure_optimizer(opt, fit, derived=[])
 
-    fitted = set(order)
-    untouched = {}
+    baseline = {}
     for n, t in list(model.fittingParameters.items()):
-        if n not in fitted:
-            untouched[('m', n)] = t[2]()
+        baseline[('m', n)] = t[2]()
     for n, t in list(obs.fittingParameters.items()):
-        if n not in fitted:
-            untouched[('o', n)] = t[2]()
+        baseline[('o', n)] = t[2]()
 
     # observation in ascending-wavenumber order, taken from a fresh object
     y_obs = np.array(obs0.spectrum, dtype=float)
@@ -334,6 +358,11 @@ def execute(case, keep_text=False):
         """('valid', L) | ('invalid', None) | ('skip', reason)."""
         from taurex.exceptions import InvalidModelException
         m2, o2, _ = _build(cfg, False)
+        for n, lin in written.items():
+            # what earlier sessions left behind in parameters no longer fitted
+            if n not in fitted:
+                (m2 if n in m2.fittingParameters
+                 else o2).fittingParameters[n][3](lin)
         S.ref_set(m2, o2, fit_by_name, order, theta)
         try:
             if is_toy:
@@ -364,11 +393,12 @@ def execute(case, keep_text=False):
                 viol('protocol', 'ndim', 'sampler told ndim=%r, %d parameters '
                      'are fitted' % (cbs['ndim'], ndim))
                 raise samplers.SessionEnd()
+            self.ran = True
             try:
-                for step, op in enumerate(ops):
-                    self.step(step, op, cbs)
+                for step, op in enumerate(self.ops):
+                    self.step(self.offset + step, op, cbs)
             except Stop:
-                pass
+                self.stopped = True
             raise samplers.SessionEnd()
 
         def call_prior(self, step, cbs, u):
@@ -434,6 +464,9 @@ def execute(case, keep_text=False):
                      step)
                 raise Stop()
             out.bump('steps', 'loglike_calls')
+            for n, v in zip(order, th):
+                written[n] = M.ref_to_linear(
+                    M.ref_prior_is_log(fit_by_name[n]['prior']), v)
             fired = fault is not None and faulty.armed is None
             verdict, Lref = oracle(th)
             if fired:
@@ -478,11 +511,22 @@ def execute(case, keep_text=False):
                     raise Stop()
             log.add('sampler', 'like', [th, L])
             # untouched parameters
-            for (own, n), v in untouched.items():
+            for (own, n), v in baseline.items():
+                if n in fitted:
+                    continue
                 t = (model if own == 'm' else obs).fittingParameters[n]
-                if t[2]() != v:
+                got = t[2]()
+                if n in written:
+                    # fitted by an earlier session: keeps what was last written
+                    w = written[n]
+                    if not abs(got - w) <= 1e-12 * abs(w):
+                        viol('untouched-changed', n + ':formerly-fitted',
+                             'parameter %s is no longer fitted but changed '
+                             'from %r to %r' % (n, w, got), step)
+                        raise Stop()
+                elif got != v:
                     viol('untouched-changed', n, 'non-fitted parameter %s '
-                         'changed from %r to %r' % (n, v, t[2]()), step)
+                         'changed from %r to %r' % (n, v, got), step)
                     raise Stop()
 
         def step(self, step, op, cbs):
@@ -508,20 +552,48 @@ def execute(case, keep_text=False):
             else:
                 raise ValueError(op)
 
-    samplers.set_plan(Plan())
+    segments = [[[], None, 0]]
+    for i, op in enumerate(ops):
+        if op[0] == 'refit':
+            segments[-1][1] = op[1]
+            segments.append([[], None, i + 1])
+        else:
+            segments[-1][0].append(op)
+    plan = Plan()
+    plan.stopped = False
+    samplers.set_plan(plan)
     samplers.use_nestle_double(True)
     try:
-        try:
-            opt.compile_params()
-            opt.compute_fit()
-            viol('protocol', 'no-sampler-call',
-                 'compute_fit returned without calling the sampler')
-        except samplers.SessionEnd:
-            pass
-        except Exception as e:
-            import traceback
-            viol('fit-raised', '%s:%s' % (kind, type(e).__name__),
-                 'compute_fit raised %r\n%s' % (e, traceback.format_exc()[-800:]))
+        for seg_ops, newfit, offset in segments:
+            plan.ops = seg_ops
+            plan.offset = offset
+            plan.ran = False
+            try:
+                opt.compile_params()
+                opt.compute_fit()
+                viol('protocol', 'no-sampler-call',
+                     'compute_fit returned without calling the sampler')
+            except samplers.SessionEnd:
+                pass
+            except Exception as e:
+                import traceback
+                viol('fit-raised', '%s:%s' % (kind, type(e).__name__),
+                     'compute_fit raised %r\n%s'
+                     % (e, traceback.format_exc()[-800:]))
+            if out.violations or plan.stopped or newfit is None:
+                break
+            # re-configure the same optimizer through its public mutators
+            try:
+                S.apply_refit(opt, fit, newfit)
+            except Exception as e:
+                viol('refit-raised', type(e).__name__,
+                     're-configuring the optimizer raised %r' % (e,))
+                break
+            enter_segment(newfit)
+            state['last'] = None
+            state['stored'] = []
+            out.bump('probes', 'refit_session')
+            log.add('user', 'refit', [order, specs])
     finally:
         samplers.use_nestle_double(False)
         samplers.set_plan(None)
@@ -571,7 +643,13 @@ def simplify(case):
             c = copy.deepcopy(case)
             c['config']['model']['nlayers'] = 3
             yield c
-    if len(cfg['fit']) > 1:
+    if any(op[0] == 'refit' for op in case['ops']):
+        # end the history at the first re-configuration / drop the first one
+        i = [j for j, op in enumerate(case['ops']) if op[0] == 'refit'][0]
+        c = copy.deepcopy(case)
+        c['ops'] = c['ops'][:i]
+        yield c
+    elif len(cfg['fit']) > 1:
         for i in range(len(cfg['fit'])):
             c = copy.deepcopy(case)
             del c['config']['fit'][i]
